@@ -1,7 +1,28 @@
-(* C16 - placeholder obligations while the general theorems are being built (see DESIGN.md). *)
-From Chess Require Import Model.Text Spec.Rules Spec.FenSpec Spec.HashSpec Proofs.Abs.
+(* C16 - The evaluation score is the piece-square sum of the board.  Pinned theorems only. *)
+From Chess Require Import Model.Text Spec.Rules Spec.EvalSpec Proofs.Grid Proofs.Inv Proofs.Abs Proofs.HashEval.
+Open Scope Z_scope.
 
-Theorem C16_start_and_kiwipete : checked_is_legal START = true /\ checked_is_legal KIWIPETE = true.
+(* the maintained score is the (i16-wrapped) piece-square sum, both kings valued by the table in force *)
+Theorem C16_score_is_sum : forall g, CacheInv g -> g_score g = wrap16 (eval (g_kend g) (g_board g)).
+Proof. exact score_is_eval. Qed.
+Check C16_score_is_sum : forall g, CacheInv g -> g_score g = wrap16 (eval (g_kend g) (g_board g)).
+Print Assumptions C16_score_is_sum.
+
+Theorem C16_no_wrap : forall g, CacheInv g -> in_i16 (eval (g_kend g) (g_board g)) ->
+  g_score g = eval (g_kend g) (g_board g).
+Proof. exact score_no_wrap. Qed.
+Check C16_no_wrap : forall g, CacheInv g -> in_i16 (eval (g_kend g) (g_board g)) ->
+  g_score g = eval (g_kend g) (g_board g).
+Print Assumptions C16_no_wrap.
+
+(* the colour-mirrored board has the negated sum and the same phase *)
+Theorem C16_mirror : forall e b, wf_grid b ->
+  eval e (mirror_board b) = - eval e b /\ spec_is_endgame (mirror_board b) = spec_is_endgame b.
+Proof. intros e b H. exact (conj (eval_mirror e b H) (spec_is_endgame_mirror b H)). Qed.
+Check C16_mirror : forall e b, wf_grid b ->
+  eval e (mirror_board b) = - eval e b /\ spec_is_endgame (mirror_board b) = spec_is_endgame b.
+Print Assumptions C16_mirror.
+
+(* non-vacuity: the imported start position and Kiwipete satisfy the cache invariant's consequences *)
+Example C16_examples : g_score START = eval false (g_board START) /\ g_score KIWIPETE = eval false (g_board KIWIPETE).
 Proof. vm_compute. split; reflexivity. Qed.
-Check C16_start_and_kiwipete : checked_is_legal START = true /\ checked_is_legal KIWIPETE = true.
-Print Assumptions C16_start_and_kiwipete.
